@@ -474,6 +474,15 @@ Definition sockaddr_step (st : sa_state) (l : line) : sa_state :=
     | [ABytes n; AInt i] => {| sa_tbl := (sa_tbl st ++ [(n, i)])%list; sa_kept := sa_kept st; sa_obs := sa_obs st |}
     | _ => sa_emit st unknown
     end
+  (* ifrename <index> <new name>: the interface with that index is renamed (the table changes under the
+     running process: a conversion made afterwards sees the new name) *)
+  else if sym_eqb name "ifrename" then
+    match args with
+    | [AInt i; ABytes n] =>
+        {| sa_tbl := map (fun e : iface => if Z.eqb (snd e) i then (n, i) else e) (sa_tbl st);
+           sa_kept := sa_kept st; sa_obs := sa_obs st |}
+    | _ => sa_emit st unknown
+    end
   (* keep tcp|udp <sockaddr>: convert and keep the result alive; the value is observed now … *)
   else if sym_eqb name "keep" then
     match keep_lines (sa_tbl st) args with Some ls => sa_keep st ls | None => sa_emit st unknown end
